@@ -61,6 +61,10 @@ def cases(chk):
         yield "login", c
     for v in VARIANTS:
         yield "login", {"variant": v, "edge": False, "passive": False, "cuts": [], "corrupt": False, "immediate": 0, "down": 1, "up": 1, "chunk": 0, "seed": 900 + len(v), "login": 1}
+    # a frame that raced the end of the handshake and whose handling upward FAILS: the login succeeded all the same — no failure is reported,
+    # nothing is torn down, every frame still arrives once and in order
+    for i, imm in enumerate((1, 2, 3)):
+        yield "login", {"variant": "IK", "edge": False, "passive": bool(i % 2), "cuts": [], "corrupt": False, "immediate": imm, "down": 2, "up": 1, "chunk": 0, "seed": 950 + i, "raise_imm": 1}
     # a reply that does not authenticate FOLLOWED by more bytes of the same dead session, then the next login
     for i in range(8):
         yield "login", {"variant": VARIANTS[i % len(VARIANTS)], "edge": False, "passive": bool(i % 2), "cuts": ["bad-answer"] * (1 + i % 2), "corrupt": False, "immediate": 0,
@@ -132,6 +136,11 @@ class World(object):
             def receive(self, d):
                 w.top_nodes.append(d)
                 coop.log(("deliver", d))
+                if w.case.get("raise_imm") and hasattr(d, "getAttributeValue") and d["id"] == "imm0" and not getattr(w, "raised_imm", False):
+                    # the application's handling of a frame that raced the end of the handshake FAILS (C12: the error goes to whoever called,
+                    # here the thread that flushes the frames queued during the handshake; the session is established all the same)
+                    w.raised_imm = True
+                    raise ValueError("the application's callback raises on this stanza")
                 if hasattr(d, "getAttributeValue") and str(d["id"] or "").startswith("dc"):
                     # what the auth layer and the network layer do for a <failure/> or a stream error, synchronously, while the segment
                     # layer is still inside its receive loop: DISCONNECT goes down, the network layer closes and the layer right above
@@ -341,6 +350,8 @@ def run_case(chk, stream, case):
             import traceback
             tb = "".join(traceback.format_exception(type(t.exc), t.exc, t.exc.__traceback__))
             own = t.idx < 2
+            if case.get("raise_imm") and isinstance(t.exc, ValueError) and "the application's callback raises" in str(t.exc):
+                continue        # the injected failure, reported to whoever handed the frame upward (C12: "the error is reported to the caller")
             if own or "MachineError" not in tb:
                 fails.append(oracle("C04:thread-raised:%s" % type(t.exc).__name__, "%s: thread %d raised %r: %s" % (ctx, t.idx, t.exc, tb.strip().splitlines()[-1][:120])))
                 return fails
